@@ -476,3 +476,47 @@ func (pi *parserInfo) FirstOf(name string, anchorFirst map[string]map[string]boo
 	}
 	return out, nil
 }
+
+// ardenNormalize rewrites direct right recursion into iteration: if the language of X is  A·X ∪ B  (the symbol X itself
+// occurring last, with nothing after it), its least solution is A*·B — `unary → ("!"|"-") unary | call` and a loop that
+// collects the prefix operators before parsing one call denote the same set of token sequences.  Both sides of a
+// comparison are normalised, so equal normal forms mean equal languages; occurrences of X that are not in tail
+// position stay ordinary symbols.
+func ardenNormalize(d *DFA, self string) *DFA {
+	live := d.live()
+	pureFinal := func(t int) bool {
+		if !d.acc[t] {
+			return false
+		}
+		for _, u := range d.trans[t] {
+			if live[u] {
+				return false
+			}
+		}
+		return true
+	}
+	changed := false
+	a := newNFA()
+	st := make([]int, len(d.acc))
+	for i := range st {
+		st[i] = a.state()
+	}
+	a.start = st[0]
+	for i, tr := range d.trans {
+		if d.acc[i] {
+			a.acc[st[i]] = true
+		}
+		for s, t := range tr {
+			if s == self && pureFinal(t) {
+				a.addEps(st[i], st[0])
+				changed = true
+				continue
+			}
+			a.add(st[i], s, st[t])
+		}
+	}
+	if !changed {
+		return d
+	}
+	return a.determinize().minimize()
+}
